@@ -1,7 +1,45 @@
 import H4.Conv
+import H4.Gen.Fn.Dfkswap
+import H4.Gen.Fn.Dfknat
 import H4.Driver.Util
 namespace H4.Driver
 open H4.Conv
+
+/-! The kernels TRANSLATED from the current C text of dfkswap.c / dfknat.c (`H4.Gen.Fn.Dfkswap`, `H4.Gen.Fn.Dfknat`, gen/c2lean.py) are run
+    on the same memory image as the hand-written model: the routine is the one `DFKconvert` dispatches to for the number type (`hconv_priv.h`
+    `*_IN`/`*_OUT` macros on this host = element size + swap flag of the generated table).  When the translated routine's answer differs from
+    the model's (or it reports undefined behaviour / fuel exhaustion) the answer carries a ` GEN=…` suffix, which the comparison with the
+    real library's answer reports as a DIFF.  This validates the translator by differential testing against the compiled C. -/
+namespace GenConv
+open H4.Gen.Fn.Dfkswap H4.Gen.Fn.Dfknat
+
+/-- the C view of a byte memory (`H4.Lemmas.C06Fn.bytes`) -/
+def img (m : List UInt8) : List Int := m.map (fun b => (b.toNat : Int))
+
+def showMem (l : List Int) : String :=
+  if l.all (fun v => 0 ≤ v ∧ v < 256) then toHex (l.map fun v => UInt8.ofNat v.toNat) else "nonbyte:" ++ showIntList l
+
+/-- (ub, oof, ret, mem) of the routine `DFKconvert` dispatches to; `s`/`d` are the addresses `so`/`dO` inside the one memory -/
+def run (esz : Nat) (swap : Bool) (fuel so : Nat) (M : List Int) (dO num ss ds : Nat) : Option (Bool × Bool × Int × List Int) :=
+  match esz, swap with
+  | 1, false => let r := DFKnb1b fuel so M dO num ss ds; some (r.ub, r.oof, r.ret, r.mem)
+  | 2, false => let r := DFKnb2b fuel so M dO num ss ds; some (r.ub, r.oof, r.ret, r.mem)
+  | 4, false => let r := DFKnb4b fuel so M dO num ss ds; some (r.ub, r.oof, r.ret, r.mem)
+  | 8, false => let r := DFKnb8b fuel so M dO num ss ds; some (r.ub, r.oof, r.ret, r.mem)
+  | 2, true => let r := DFKsb2b fuel so M dO num ss ds; some (r.ub, r.oof, r.ret, r.mem)
+  | 4, true => let r := DFKsb4b fuel so M dO num ss ds; some (r.ub, r.oof, r.ret, r.mem)
+  | 8, true => let r := DFKsb8b fuel so M dO num ss ds; some (r.ub, r.oof, r.ret, r.mem)
+  | _, _ => none
+
+def cross (esz : Nat) (swap : Bool) (num so ss dO ds : Nat) (mem : List UInt8) (model : String) : String :=
+  match run esz swap (num + 1) so (img mem) dO num ss ds with
+  | none => s!"{model} GEN=no-routine"
+  | some (ub, oof, ret, m) =>
+    if ub then s!"{model} GEN=ub" else if oof then s!"{model} GEN=oof" else
+    let gen := if ret == -1 then (if m == img mem then "fail" else "fail-but-wrote:" ++ showMem m)
+               else if ret == 0 then showMem m else s!"ret={ret}"
+    if gen == model then model else s!"{model} GEN={gen}"
+end GenConv
 
 /-- engine `conv`: `cv <nt> <num> <so> <ss> <dO> <ds> <hex mem>` => memory after `DFKconvert` | fail -/
 def stepConv (args : List String) : String :=
@@ -10,9 +48,11 @@ def stepConv (args : List String) : String :=
     match nt.toNat?, num.toNat?, so.toNat?, ss.toNat?, dO.toNat?, ds.toNat?, parseHex m with
     | some nt, some num, some so, some ss, some dO, some ds, some mem =>
       match lookup nt with
-      | some (esz, swap) => match convert esz swap num so ss dO ds mem with
-        | some r => toHex r
-        | none => "fail"
+      | some (esz, swap) =>
+        let model := match convert esz swap num so ss dO ds mem with
+          | some r => toHex r
+          | none => "fail"
+        GenConv.cross esz swap num so ss dO ds mem model
       | none => "fail"
     | _, _, _, _, _, _, _ => "bad-op"
   | _ => "bad-op"
